@@ -218,6 +218,22 @@ CHECKS["C15"] = dict(
          "reports are the first trigger per code location per cell (recover mode deduplicates). ebpf and tms9900 are stubs that execute "
          "nothing; their cells only exercise construction, set_reg and the fetch.")
 
+CHECKS["C16"] = dict(
+    level="model_checking", design_ref="DESIGN.md 4/C16",
+    technique="bounded exhaustive input enumeration (deviation-1 mutation space around seed programs, length/count/nesting/address/option "
+              "menus, all files of at most two bytes) through the sanitizer build of the real naken_asm, one process per input",
+    text="Around 12 hand-written seed programs and one corpus-derived seed per CPU: every token position x {delete, duplicate, swap with "
+         "the next token, replace by each of 24 punctuation/control bytes}; every identifier, number, string, macro/define body and argument "
+         "blown up to each length of {127 ... 4097, 65537}; operand counts 1..12 for three mnemonics of every CPU; macro/define parameter "
+         "counts; 17 nesting constructs at depths {127, 128, 129, 130, 1000} plus self- and mutually-recursive defines, macros and includes; "
+         "23 address-taking directives x 8 boundary values x 4 CPUs; option menus (every output type with and without CPU directive, "
+         "missing / over-long / repeated options, 300 include paths); sparse images in every output type; every source file of at most 2 "
+         "bytes (65 793 files, and 8 192 after a CPU directive). Quick 23.6 k inputs, thorough 130.5 k. Oracle: exit status 0 or 1, a "
+         "diagnostic whenever the status is 1, no signal, no AddressSanitizer / UBSan bounds / divide-by-zero report, at most 2 s of CPU "
+         "time (a normal run takes about 10 ms; the slowest passing run is recorded in the evidence).",
+    note="Runs killed for exceeding the 64 MiB output limit (bin/elf images of a sparse program) are not judged. Explicit repetition "
+         "counts of 2^31 (.repeat, .data_fill) are not in the menu.")
+
 CHECKS["C18"] = dict(
     level="model_checking", design_ref="DESIGN.md 4/C18",
     technique="exhaustive enumeration of listing programs per CPU (every corpus / decoder-derived instruction in groups of four, plus data-between-code, "
